@@ -1,10 +1,12 @@
 import Tengo.Sexp
 import Tengo.Model.Value
+import Tengo.Model.HeapCopy
+import Tengo.Drivers.C09
 /-! Line protocol of the value model (C10). Values travel in the format of DESIGN.md Appendix A:
 `u (b 0|1) (i n) (f bits) (c n) (s #hex) (y #hex) (a v…) (ia v…) (m (#key v)…) (im …) (e id v) (t unixnano)
 (fn) (bf #name) (uf)`; `(e v)` is read as an error of identity 0 (fresh). Lines:
 `(eq a b)` `(ne a b)` `(cmp Less|LessEq|Greater|GreaterEq a b)` `(pair a b)` `(falsy a)` `(copy a)`
-`(conv string|int|float|bool|char|bytes|time a [default])`. -/
+`(conv string|int|float|bool|char|bytes|time a [default])` `(copyheap x op…)` (heap-level copy, see `handleCopyHeap`). -/
 namespace Tengo.Drivers.C10
 open Tengo Tengo.Model.Val
 
@@ -149,8 +151,23 @@ def handleConv : List Sexp → String
     | _, _, _ => "bad-op"
   | _ => "bad-op arity"
 
+/-- `(copyheap x op op …)`: build a value in the heap model of C09 with its operations (line protocol of
+`Drivers/C09`: `lit arr map err immut …`), then copy the value in handle `x` with `HeapCopy.copyVal`. Answer
+`ok <snapshot of the copy> ; <snapshot of the original afterwards> ; data0|1 ; fresh0|1 ; sep0|1`
+(`HeapCopy.copyReport`). -/
+def handleCopyHeap : List Sexp → String
+  | x :: ops =>
+    match x.asNat?, (Tengo.Drivers.C09.runCmds ({} : Tengo.Model.Heap9.Heap) ops []).1 with
+    | some i, some h =>
+      match h.regs[i]? with
+      | some v => "ok " ++ Tengo.Model.HeapCopy.copyReport h v
+      | none => "bad-op handle"
+    | _, _ => "bad-op"
+  | _ => "bad-op arity"
+
 def handlers : List (String × (List Sexp → String)) :=
-  [("eq", with2 (fun a b => "ok " ++ bit (opEqual a b))),
+  [("copyheap", handleCopyHeap),
+   ("eq", with2 (fun a b => "ok " ++ bit (opEqual a b))),
    ("ne", with2 (fun a b => "ok " ++ bit (opNotEqual a b))),
    ("cmp", handleCmp),
    ("pair", with2 (fun a b => "ok " ++ bit (opEqual a b) ++ " " ++ bit (opNotEqual a b) ++ " " ++
